@@ -15,6 +15,7 @@ import (
 
 	"github.com/invopop/gobl"
 	"github.com/invopop/gobl/bill"
+	"github.com/invopop/gobl/schema"
 )
 
 // C15, check "racecold": the first use of a regime/addon family in a process,
@@ -31,12 +32,12 @@ func init() {
 		Name:      "racecold",
 		NeedsRace: true,
 		NumRuns: func(c *Ctx) int64 {
-			n := int64(len(coldFiles(c.Repo)))
+			n := int64(len(coldInputs(c)))
 			if c.Tier == "thorough" {
 				return n * 3
 			}
-			if n > 36 {
-				n = 36
+			if n > 60 {
+				n = 60
 			}
 			return n
 		},
@@ -68,15 +69,33 @@ func coldFiles(repo string) []string {
 	return coldList
 }
 
+// coldInputs: the source documents of the corpus (the synthetic ones first: they are the
+// shapes no shipped example has, e.g. rate keys that are migrated when read) followed by the
+// shipped, already built envelopes. "src:<name>" stands for a corpus document's source.
+func coldInputs(c *Ctx) []string {
+	var syn, src []string
+	for _, d := range c.Corpus.Valid {
+		if strings.HasPrefix(d.Name, "synthetic/") {
+			syn = append(syn, "src:"+d.Name)
+		} else {
+			src = append(src, "src:"+d.Name)
+		}
+	}
+	return append(append(syn, src...), coldFiles(c.Repo)...)
+}
+
 func planRaceCold(c *Ctx, run int64) *Plan {
 	r := RNG(c.Seed, run, 29)
-	files := coldFiles(c.Repo)
+	files := coldInputs(c)
 	p := &Plan{Prop: "C15", Check: "racecold", Seed: c.Seed, Run: run, Knobs: map[string]int64{
 		"gomaxprocs": []int64{4, 16, 2}[int(run)%3], "goroutines": int64(4 + r.IntN(9)),
 	}}
 	// one family per process: the file this run is about (a seeded permutation walks all of
 	// them), sometimes joined by one or two others
-	first := files[int((run*7+c.Seed))%len(files)]
+	first := files[int(run+c.Seed-1)%len(files)]
+	if c.Tier == "thorough" {
+		first = files[int((run*7+c.Seed))%len(files)]
+	}
 	p.Ops = append(p.Ops, Op{ID: 1, K: "use", S: first})
 	for i, n := 0, r.IntN(3); i < n; i++ {
 		p.Ops = append(p.Ops, Op{ID: 2 + i, K: "use", S: Pick(r, files)})
@@ -85,7 +104,24 @@ func planRaceCold(c *Ctx, run int64) *Plan {
 }
 
 func execRaceCold(x *X) {
-	b, _ := json.Marshal(x.P)
+	// sources of corpus documents are handed over as files: the cold process loads no corpus
+	cp := clonePlan(x.P)
+	for i, op := range cp.Ops {
+		if strings.HasPrefix(op.S, "src:") {
+			d := x.C.Corpus.Get(strings.TrimPrefix(op.S, "src:"))
+			if d == nil {
+				x.R.Infra = "corpus document missing: " + op.S
+				return
+			}
+			path := filepath.Join(scratchDir(), "cold-"+HS(d.Name)[:12]+".json")
+			if err := os.WriteFile(path, d.Src, 0o644); err != nil {
+				x.R.Infra = err.Error()
+				return
+			}
+			cp.Ops[i].S3 = path
+		}
+	}
+	b, _ := json.Marshal(cp)
 	cmd := selfCmd(x.C, "cold", "C15", "VERIF_COLD_PLAN="+string(b), "GORACE=halt_on_error=0 exitcode=66")
 	var out, errb bytes.Buffer
 	cmd.Stdout, cmd.Stderr = &out, &errb
@@ -142,7 +178,11 @@ func coldMain(c *Ctx) int {
 	runtime.GOMAXPROCS(int(p.Knob("gomaxprocs", 4)))
 	var data [][]byte
 	for _, op := range p.Ops {
-		b, err := os.ReadFile(filepath.Join(c.Repo, op.S))
+		path := filepath.Join(c.Repo, op.S)
+		if op.S3 != "" {
+			path = op.S3
+		}
+		b, err := os.ReadFile(path)
 		if err != nil {
 			fmt.Fprintln(os.Stderr, "cold input:", err)
 			return 2
@@ -186,7 +226,23 @@ func coldUse(b []byte, w int) (out string) {
 		}
 	}()
 	env := new(gobl.Envelope)
-	if err := json.Unmarshal(b, env); err != nil {
+	var probe struct {
+		Schema string `json:"$schema"`
+	}
+	_ = json.Unmarshal(b, &probe)
+	if probe.Schema != string(gobl.EnvelopeSchema) {
+		// a bare source document: the first calculation (with whatever is migrated or derived on
+		// the way) happens here
+		doc := new(schema.Object)
+		if err := json.Unmarshal(b, doc); err != nil {
+			return "parse:" + err.Error()
+		}
+		e2, err := gobl.Envelop(doc)
+		if err != nil {
+			return "envelop:" + err.Error()
+		}
+		env = e2
+	} else if err := json.Unmarshal(b, env); err != nil {
 		return "parse:" + err.Error()
 	}
 	res := []string{}
